@@ -440,7 +440,7 @@ pub fn fresh_mode() -> bool {
 /// subject keeps in thread-locals or statics between two calls then shapes every later run alike: the single runs an
 /// oracle compares with and the run under test, so the state hides itself. A thread per run removes the thread-local
 /// part of that, but costs ~150 us per run on this machine when 16 workers do it at once (7 x the run itself), so it is
-/// the probe (every 97th run is repeated on a thread of its own, `Ctx::run`) and the fall-back mode (when a probe
+/// the probe (every 499th run is repeated on a thread of its own, `Ctx::run`) and the fall-back mode (when a probe
 /// diverged, the orchestrator starts the whole check again with `JV_FRESH_THREAD=1`), not the default.
 pub fn run_with(args: &[String], data: Vec<u8>, rplan: &ReadPlan, wplan: &WritePlan) -> Obs {
     if !(fresh_mode() || FORCE_FRESH.with(|c| c.get())) {
@@ -604,6 +604,15 @@ pub fn run_child_env<A: AsRef<std::ffi::OsStr>>(bin: &str, args: &[A], input: &[
             let w = unsafe { OwnedFd::from_raw_fd(fds[1]) };
             cmd.stdout(Stdio::from(w));
         }
+    }
+    // a child must not outlive the worker that started it (a worker that is killed at its deadline would otherwise
+    // leave a looping subject behind, eating a core for the rest of the session)
+    unsafe {
+        use std::os::unix::process::CommandExt;
+        cmd.pre_exec(|| {
+            libc::prctl(libc::PR_SET_PDEATHSIG, libc::SIGKILL);
+            Ok(())
+        });
     }
     let mut child = cmd.spawn()?;
     let stdin = child.stdin.take();
